@@ -6,4 +6,12 @@
 hydro_lang::setup!();
 
 #[cfg(test)]
+mod c36;
+#[cfg(test)]
+mod c38;
+#[cfg(test)]
+mod corpus;
+#[cfg(test)]
+mod oracle;
+#[cfg(test)]
 mod probe0;
